@@ -339,6 +339,14 @@ def run(ctx):
         ops2.append("digest q full")
         impl2.append(chain.state_digest(side))
     res.count("recorded_blocks", len(blocks))
+    # ids of real blocks are what they are also while another thread of the node hashes candidate headers (the miner watcher)
+    hdrs = [g.header] + [b.header for _, _, b in blocks]
+    ids_ = [g.hash().hex()] + [b.hash().hex() for _, _, b in blocks]
+    extra_ = [BlockHeader(BlockSummary(7 + k_, b"\x11" * 32, b"\x22" * 32, 1_600_000_000 + k_, b"\x00" * 32, k_),
+                          PowEvidence(b"\x01" * 32, b"\x02" * 32, b"\x03" * 32)) for k_ in range(6)]
+    extra_ids = [sha256d(h_.serialize()).hex() for h_ in extra_]
+    kit.concurrent_probe(res, "BlockHeader.hash", lambda: [
+        ((lambda h_=h_: h_.hash().hex()), i_, "header at height %d" % h_.summary.height) for h_, i_ in zip(hdrs + extra_, ids_ + extra_ids)])
     res.sample({"recorded": [fn for fn, _, _ in blocks][:2], "validated_with": "real scrypt, horizon disabled"})
     chain.unpatch()
     model = ctx.driver.ask(ops + ops2)
